@@ -5,6 +5,7 @@ import (
 	"fmt"
 	"go/types"
 	"sort"
+	"strings"
 
 	"golang.org/x/tools/go/ssa"
 
@@ -76,6 +77,25 @@ func verifControlIdx6Bad(m modeling.Mesh) float64 {
 		t += data.At(indices.At(i)+1) - data.At(indices.At(i))
 	}
 	return t
+}
+
+// must fire ITER-1: one drain per attribute with a shared, never rewound index iterator
+func verifControlIter1Bad(m modeling.Mesh) [][]float64 {
+	indices := m.Indices()
+	var out [][]float64
+	for _, atr := range m.Float1Attributes() {
+		data := m.Float1Attribute(atr)
+		var vals []float64
+		for {
+			i, err := indices.Next()
+			if err != nil {
+				break
+			}
+			vals = append(vals, data.At(i))
+		}
+		out = append(out, vals)
+	}
+	return out
 }
 
 // must fire FAM-1: float4 never enumerated
@@ -152,6 +172,8 @@ func run(c *props.Ctx) {
 	c.R.Floor("IDX-2", 6)
 	c.R.Floor("IDX-3", 20)
 	remapAndFill(c, fns)
+	loopVars(c, fns)
+	iterDrains(c, fns)
 	generators(c)
 	nf := mc.ReportFamilies(c, fns, bad)
 	c.R.Extra["family_rebuilding_functions"] = nf
@@ -245,6 +267,74 @@ func remapAndFill(c *props.Ctx, fns []*ssa.Function) {
 		} else {
 			c.R.Violate(s.Rule, construct, p.Pos(ssau.PosOf(s.At)), s.Detail)
 		}
+	}
+}
+
+// loopVars: ORD-2 over the mesh operations — with the pre-1.22 loop semantics go.mod selects, a closure or pointer
+// that keeps a per-loop variable beyond its iteration sees the last iteration's value: per-attribute copy
+// functions collected in a loop all fill the last attribute, the others stay short.
+func loopVars(c *props.Ctx, fns []*ssa.Function) {
+	p := c.P
+	escs, st := eng.LoopVarAddrEscapes(fns)
+	byFn := map[*ssa.Function][]eng.LoopVarEscape{}
+	for _, e := range escs {
+		byFn[e.Fn] = append(byFn[e.Fn], e)
+	}
+	for _, fn := range fns {
+		if len(ssau.Loops(fn)) == 0 || p.IsControl(fn.Pos()) {
+			continue
+		}
+		rel := p.RelFile(fn.Pos())
+		if !(rel == "modeling/mesh.go" || strings.HasPrefix(rel, "modeling/meshops/") || strings.HasPrefix(rel, "modeling/repeat/") || strings.HasPrefix(rel, "modeling/primitives/") || strings.HasPrefix(rel, "modeling/extrude/")) {
+			continue
+		}
+		name := p.FuncName(fn)
+		es := byFn[fn]
+		if len(es) == 0 {
+			c.R.Hold("ORD-2", name, p.Pos(fn.Pos()), "no per-loop variable is kept (by address or by a closure) beyond its iteration")
+			continue
+		}
+		for _, e := range es {
+			c.R.Violate("ORD-2", name+"#"+e.Var.Comment, p.Pos(ssau.PosOf(e.At)),
+				"per-loop variable '"+e.Var.Comment+"' "+e.How+" while the loop continues: everything kept ends up naming the last iteration's value (go.mod selects the pre-1.22 loop semantics)")
+		}
+	}
+	c.R.Extra["ord2_loops_examined"] = st.Loops
+	c.R.Floor("ORD-2", 40)
+}
+
+// iterDrains: ITER-1 — mesh accessor iterators are not drained statefully across repetitions (expected count on the
+// unchanged tree: zero Next() calls; the positive control must fire on every run).
+func iterDrains(c *props.Ctx, fns []*ssa.Function) {
+	p := c.P
+	n, ctl := 0, false
+	per := map[string]int{}
+	for _, f := range eng.IteratorDrains(fns) {
+		if p.IsControl(f.Fn.Pos()) {
+			if !f.OK {
+				ctl = true
+			}
+			continue
+		}
+		n++
+		k := p.FuncName(f.Fn) + "→Next"
+		per[k]++
+		construct := fmt.Sprintf("%s#%d", k, per[k])
+		if f.OK {
+			c.R.Hold("ITER-1", construct, p.Pos(ssau.PosOf(f.At)), f.Detail)
+		} else {
+			c.R.Violate("ITER-1", construct, p.Pos(ssau.PosOf(f.At)), f.Detail)
+		}
+	}
+	if n == 0 {
+		c.R.Hold("ITER-1", "scope:modeling", "", fmt.Sprintf("no accessor iterator is consumed with Next() in the %d functions of the mesh operations: only the random-access half (At / Len) is used", len(fns)))
+	}
+	if len(p.Controls) > 0 {
+		got := ob.Holds
+		if ctl {
+			got = ob.Violation
+		}
+		c.R.Control("ITER-1", "control:verifControlIter1Bad", "modeling/meshops/zz_verif_control_c02.go", got, ob.Violation, "")
 	}
 }
 
